@@ -383,15 +383,37 @@ def register(M):
     reg('TypeId', 'PartialEq', 'eq', lambda m, a, k: val(m, a[0]).fields[0] == val(m, a[1]).fields[0])
     reg('TypeId', 'PartialEq', 'ne', lambda m, a, k: val(m, a[0]).fields[0] != val(m, a[1]).fields[0])
 
+    def goal_kind(m, x, depth=0):
+        """'Goal' / 'DFSGoal' when the value contains a goal field (distinguishes the two
+        instantiations of the operator structs that the crate tells apart by TypeId)."""
+        x = m.ctx.resolve(x)
+        if isinstance(x, Adt):
+            if x.ty in ('Goal', 'DFSGoal'):
+                return x.ty
+            if depth < 4:
+                for f in x.fields:
+                    if isinstance(f, (Adt,)):
+                        g = goal_kind(m, f, depth + 1)
+                        if g:
+                            return g
+        return None
+
     def any_downcast_ref(m, a, k):
         g = k.gen[-1] if k.gen else ''
-        want = type_head(g[1:-1])
+        full = g[1:-1]
+        want = type_head(full)
         r = innermost_ref(m, a[0])
         x = val(m, r)
         while isinstance(x, Adt) and x.ty in ('Rc', 'Box'):
             r = Ref(r.cell, r.path + (0,))
             x = val(m, r)
         if isinstance(x, Adt) and x.ty == want:
+            # type arguments: only the goal kind can differ between instantiations in this crate
+            mm = re.search(r'\b(DFSGoal|Goal)<', full[len(want):] if full.startswith(want) else full.split(want, 1)[-1])
+            if mm:
+                have = goal_kind(m, x) or m.generics.get('G')
+                if have and have != mm.group(1):
+                    return NONE
             return some(r)
         return NONE
     reg('dyn Any', None, 'downcast_ref', any_downcast_ref)
@@ -545,6 +567,27 @@ def register(M):
         store(r, Adt('Vec', 0, v.fields[:i] + (a[2],) + v.fields[i:]), m.ctx.resolve)
         return UNIT
     reg('Vec', None, 'insert', vec_insert)
+
+    def vec_split_off(m, a, k):
+        r = innermost_ref(m, a[0])
+        v = val(m, r)
+        i = val(m, a[1])
+        if is_sym(i):
+            raise NotEncodable('Vec::split_off at symbolic index')
+        if i > len(v.fields):
+            raise Panic('`at` split index (is %d) should be <= len (is %d)' % (i, len(v.fields)))
+        store(r, Adt('Vec', 0, v.fields[:i]), m.ctx.resolve)
+        return Adt('Vec', 0, v.fields[i:])
+    reg('Vec', None, 'split_off', vec_split_off)
+
+    def vec_truncate(m, a, k):
+        r = innermost_ref(m, a[0])
+        v = val(m, r)
+        i = val(m, a[1])
+        store(r, Adt('Vec', 0, v.fields[:i]), m.ctx.resolve)
+        return UNIT
+    reg('Vec', None, 'truncate', vec_truncate)
+    reg('Vec', None, 'clear', lambda m, a, k: (store(innermost_ref(m, a[0]), Adt('Vec', 0, ()), m.ctx.resolve), UNIT)[1])
 
     def vec_remove(m, a, k):
         r = innermost_ref(m, a[0])
@@ -764,6 +807,20 @@ def register(M):
         reg(t, 'Iterator', 'chain', lambda m, a, k: mk_iter('chain', (into_iter_value(m, a[0]), into_iter_value(m, a[1]))))
         reg(t, 'Iterator', 'zip', lambda m, a, k: mk_iter('zip', (into_iter_value(m, a[0]), into_iter_value(m, a[1]))))
         reg(t, 'Iterator', 'by_ref', lambda m, a, k: a[0])
+
+        def it_take(m, a, k):
+            n = val(m, a[1])
+            if is_sym(n):
+                raise NotEncodable('take(symbolic)')
+            return mk_iter('take', into_iter_value(m, a[0]), state=n)
+
+        def it_skip(m, a, k):
+            n = val(m, a[1])
+            if is_sym(n):
+                raise NotEncodable('skip(symbolic)')
+            return mk_iter('skip', into_iter_value(m, a[0]), state=n)
+        reg(t, 'Iterator', 'take', it_take)
+        reg(t, 'Iterator', 'skip', it_skip)
         reg(t, 'IntoIterator', 'into_iter', lambda m, a, k: into_iter_value(m, a[0]))
     regp('std::iter::once', lambda m, a, k: mk_iter('once', state=a[0]))
     regp('std::iter::empty', lambda m, a, k: mk_iter('empty'))
